@@ -206,6 +206,14 @@ def run(ctx):
     fit = ctx.cls("clikit.ui.components.cell_wrapper.CellWrapper").methods.get("fit")
     ctx.require(fit is not None, "CellWrapper.fit missing")
     scratch_rule(ctx, r, fit)
+
+    # ---------------------------------------------------------------- R10
+    r = ctx.rule("C17-R10", "RESET", "a run after a failed run is like a run on a fresh application: an args parser kept on a config (set_args_parser) "
+                 "starts every parse from empty scratch maps, also when the previous parse ended in an error (same rule as C05-R1)", reference=2)
+    parser_base = ctx.cls("clikit.api.args.args_parser.ArgsParser")
+    for c in p.subclasses(parser_base, strict=True):
+        if "parse" in c.methods:
+            scratch_rule(ctx, r, c.methods["parse"])
     return ctx.results
 
 
